@@ -203,6 +203,7 @@ func checkC06(p *Prog, r *Report) {
 		r.OK("R06d", fmt.Sprintf("no ambient source in %d functions of goose and internal/coq", n), token.NoPos, "")
 	}
 	c06Controls(r)
+	c06MessageOperands(p, r)
 	// package independence in the command's loop: shared with C17 (R17b)
 	scratch := NewReport("C17", p)
 	checkC17(p, scratch)
